@@ -124,6 +124,8 @@ func init() {
 			n = 900
 		}
 		runStreamProfile(o, r, profile{name: "mixed", rounds: [2]int{4, 14}, cancel: 20, handlerEnd: 25, headers: 25, kinds: []string{"BD", "SS", "CS"}, returnCodes: []int64{0, 0, 5}}, n)
+		// ---- the HTTP client stream against a scripted transport: deliveries, receives and the end of the context interleaved
+		httpClientSchedules(o, r, n, "Http")
 		// ---- message contents, both transports, all kinds (Go-side comparison with proto.Equal) ----
 		unk := protowire.AppendVarint(protowire.AppendTag(nil, 77, protowire.VarintType), 5)
 		anyv, _ := anypb.New(wrapperspb.String("in any"))
